@@ -114,8 +114,8 @@ PROPS["C03"]["rule"] += "; second part (cabi): each job = one seeded workload (c
 # -race binary (conflicting unsynchronised accesses)
 PROPS["C05"]["race"] = True
 PROPS["C05"]["also"] = [
-    {"engine": "owsim", "race": False, "runs_quick": 300, "runs_thorough": 40000},
-    {"engine": "owsim", "race": True, "runs_quick": 120, "runs_thorough": 15000},
+    {"engine": "owsim", "race": False, "runs_quick": 600, "runs_thorough": 40000},
+    {"engine": "owsim", "race": True, "runs_quick": 200, "runs_thorough": 15000},
 ]
 PROPS["C05"]["rule"] += "; additional phases run the ow-sim engine of C07 (model goroutines per generation, asynchronous writer goroutines, seeded disk latencies) in the normal and in the -race binary"
 PROPS["C05"]["real"] = PROPS["C05"]["real"] + ["cmd/ow-sim, io (ow-sim phases)"]
